@@ -25,6 +25,12 @@ CLAIMS = {
             'resetState re-assigns with fresh values on all paths; print-started ordering; no global/class-level state; '
             'configuration writers census',
             'sufficient condition, fully static; parser scratch object re-initialised by every parse (C18)'),
+    'C16': ('abstract interpretation of planArc / computeArcCenterOffsets with polynomial value numbering over opaque '
+            'trigonometric applications: end point verbatim, circle form of every sample, equal angular steps travel/n from '
+            'atan2(-j,-i), n-1 samples, direction normalisation of the sweep, cross/dot arguments of the sweep angle, '
+            'segment density, centre law of the radius form (with rewrite rules hypot^2, sqrt^2), no raising path',
+            'ONLY the symbolic construction is decided: floating-point values of the samples (rounding in atan2/cos/sin, drift, '
+            'chord lengths) are not decided by this family; absolute positioning only'),
     'C17': ('exhaustive evaluation over the sign/order decisions of every comparison in containsPoint / containsRegion / '
             'the rectangle constructor: on every abstract path the answer must equal the closed-set specification and every '
             'obligation must have been decided on the right quantities (polynomial normal forms); class exhaustiveness',
